@@ -845,6 +845,10 @@ class NpSem:
             self.fail(node, f"array attribute .{a} is not modelled")
         if isinstance(obj, tuple) and a in ("count", "index"):
             return getattr(obj, a)
+        if isinstance(obj, slice) and a in ("start", "stop", "step"):
+            return getattr(obj, a)
+        if isinstance(obj, range) and a in ("start", "stop", "step"):
+            return getattr(obj, a)
         # python containers and strings: documented semantics of the builtin methods
         if isinstance(obj, dict) and a in ("copy", "pop", "get", "items", "keys", "values", "update", "setdefault"):
             if a in ("items", "keys", "values"):
